@@ -406,6 +406,11 @@ P35 == Cardinality({h \in H : Established(h)}) <= MaxClients
 (* closed; Close never waits for a connection it did not disconnect                             *)
 P36 == cpc \in {"closed", "returned"} => \A h \in H : pc[h] # "idle" => pc[h] = "done" /\ stopped[h]
 P36b == ~(cpc = "waiting" /\ \E h \in H : pc[h] \in {"acked", "established", "reading"} /\ ~stopped[h])
+(* the contract of sync.WaitGroup: the counter is not raised from zero while Close is in Wait ("Add calls with a     *)
+(* positive delta that occur when the counter is zero must happen before a Wait": otherwise Wait may panic with     *)
+(* "WaitGroup is reused before previous Wait has returned", as observed on the real broker: schedules all/b_644 of  *)
+(* the thorough tier). An action property.                                                                          *)
+WgContract == [][~(cpc = "waiting" /\ wg = 0 /\ wg' > 0)]_vars
 
 (* C14: a live established connection is the one registered under its id; one per id            *)
 P14 == \A h \in H : pc[h] \in {"established", "reading"} /\ ~stopped[h] => reg[Id(h)] = h
